@@ -730,7 +730,7 @@ def gen_c12(r, knobs=None):
     processes running the current tree (other hash seed) on the same data directory must find, load and not recompute
     every one of them, at the documented layout, with run info and log beside the result."""
     kn = {'kinds': PERSISTED_KINDS, 'n_roots': (1, 3), 'n_pipes': (1, 4), 'no_for_ns': True, 'p_twin': 0.0,
-          'families': ['int', 'int', 'str', 'float', 'bool', 'list', 'dict', 'none_or_int', 'placeholder', 'obj', 'objlist', 'intdict']}
+          'families': ['int', 'int', 'str', 'float', 'bool', 'list', 'dict', 'none_or_int', 'placeholder', 'obj', 'objlist', 'intdict', 'phlist']}
     kn.update(knobs or {})
     # the old release has defects of its own (e.g. tasks of one config mounted under several namespaces are one object
     # with the first mounting's wiring); its processes only get roots outside those zones: every config mounted once
